@@ -278,6 +278,11 @@ func (d Decimal) Div(input Decimal) Decimal {
 	return Decimal(decimal.Decimal(d).Div(decimal.Decimal(input)))
 }
 
+// IsZero returns true if d is equal to zero.
+func (d Decimal) IsZero() bool {
+	return decimal.Decimal(d).IsZero()
+}
+
 // FloorDiv divides d by input and rounds down.
 func (d Decimal) FloorDiv(input Decimal) (Integer, error) {
 	result := decimal.Decimal(d).Div(decimal.Decimal(input)).IntPart()
